@@ -11,6 +11,7 @@ import (
 	"fmt"
 	"io"
 	"os"
+	"runtime/pprof"
 	"strings"
 	"time"
 
@@ -430,6 +431,12 @@ func main() {
 		c.ReplayExit(v.Scenario, err)
 	}
 
+	if pf := os.Getenv("C18_PROF"); pf != "" {
+		f, _ := os.Create(pf)
+		pprof.StartCPUProfile(f)
+		defer pprof.StopCPUProfile()
+		go func() { time.Sleep(25 * time.Second); pprof.StopCPUProfile(); f.Close() }()
+	}
 	alphabet := turnAlphabet()
 	dry := os.Getenv("C18_DRY") != "" // development aid: count cases and runs without executing them
 	stop := false
